@@ -18,6 +18,7 @@ import (
 	"syscall"
 
 	"github.com/antlr4-go/antlr/v4"
+	"github.com/iancoleman/strcase"
 	gen "github.com/xinchentechnote/fin-protoc/internal/grammar"
 	"github.com/xinchentechnote/fin-protoc/internal/model"
 	"github.com/xinchentechnote/fin-protoc/internal/parser"
@@ -31,6 +32,7 @@ type req struct {
 	Fresh bool     `json:"fresh"`
 	Times int      `json:"times"`
 	Dump  bool     `json:"dump"`
+	Names []string `json:"names"`
 }
 
 type M = map[string]interface{}
@@ -133,6 +135,13 @@ func handle(r *req) M {
 		return guard(func() M { return opModel(r.Text) })
 	case "gen":
 		return opGen(r)
+	case "strcase":
+		// the REAL case conversions the generators use, for the identifiers of one program
+		out := M{}
+		for _, n := range r.Names {
+			out[n] = []string{strcase.ToSnake(n), strcase.ToCamel(n), strcase.ToLowerCamel(n)}
+		}
+		return M{"names": out}
 	case "ping":
 		return M{"pong": true}
 	}
